@@ -25,7 +25,7 @@ C_LIGHT = 299792458.0
 
 def REQUIRED(tier):
     return ["kernel_direct", "filterbank_fold", "timeseries_fold", "pulse_train", "conservation_checks", "cell_count_checks", "gulp_identity_checks",
-            "regime:gulp<2*maxdelay", "regime:nbands_not_dividing", "regime:accel!=0", "regime:multi_block", "canary_audits", "regime:multi_file_input"]
+            "regime:gulp<2*maxdelay", "regime:nbands_not_dividing", "regime:accel!=0", "regime:multi_block", "canary_audits", "regime:multi_file_input", "long_folds", "pulse_train_edge_bins"]
 
 
 def cases(tier, seed):
@@ -34,6 +34,8 @@ def cases(tier, seed):
         yield {"kind": "geom", "seed": int(seed) * 100003 + i}
     for i in range(max(10, n // 10)):
         yield {"kind": "pulse", "seed": int(seed) * 100003 + i}
+    for i in range(6 if tier == "quick" else 60):
+        yield {"kind": "long", "seed": int(seed) * 100003 + i}
 
 
 def oracle_cells(N, maxdelay, index0, nfold, tsamp32, period32, accel32, total, nbins, nints):
@@ -41,7 +43,9 @@ def oracle_cells(N, maxdelay, index0, nfold, tsamp32, period32, accel32, total, 
     tj = t * np.float64(tsamp32)
     tobs = total * np.float64(tsamp32)
     phase = nbins * tj * (1 + np.float64(accel32) * (tj - tobs) / (2 * C_LIGHT)) / np.float64(period32) + 0.5
-    amb = np.abs(phase - np.round(phase)) < 1e-9 * np.maximum(1.0, np.abs(phase))
+    # ambiguous only when *almost* on a bin edge; a phase that is exactly an integer in double arithmetic is not ambiguous
+    # (the documented formula truncates: the sample belongs to the bin that starts at the edge)
+    amb = (np.abs(phase - np.round(phase)) < 1e-9 * np.maximum(1.0, np.abs(phase))) & (phase != np.round(phase))
     pbin = np.abs(np.trunc(phase)).astype(np.int64) % nbins
     sub = np.floor_divide(t, total / nints).astype(np.int64)
     return pbin, sub, amb
@@ -79,9 +83,46 @@ def _compare(ctx, one, what, got_sum, got_cnt, sums, cnts, amb):
     return False
 
 
+def _long(case, ctx):
+    """Many rotations: phase errors that grow with time (e.g. a period evaluated in single precision) need 10^5..10^6 samples."""
+    from sigpyproc.header import Header
+    from sigpyproc.timeseries import TimeSeries
+
+    rng = np.random.default_rng([case["seed"], 13])
+    N = int(rng.choice([1 << 18, 300000, 1 << 20]))
+    tsamp = float(rng.choice([6.4e-5, 1e-3, 8.192e-5]))
+    period = float(rng.uniform(5, 300)) * tsamp * (1 + 1e-3 * rng.random())
+    nbins, nints = int(rng.integers(8, 65)), int(rng.integers(1, 9))
+    accel = float(rng.choice([0.0, 0.0, 25.0, -300.0]))
+    x = rng.integers(0, 16, size=N).astype(np.float32)
+    one = dict(case, geom={"N": N, "tsamp": tsamp, "period": period, "nbins": nbins, "nints": nints, "accel": accel})
+    ctx.evaluated(); ctx.count("long_folds")
+    hdr = Header(filename="x.tim", data_type="time series", nchans=1, foff=-1.0, fch1=1400.0, nbits=32, tsamp=tsamp, tstart=58000.0, nsamples=N)
+    with np.errstate(all="ignore"):
+        fd = TimeSeries(x, hdr).fold(period, accel=accel, nbins=nbins, nints=nints)
+    s1, c1, a1 = oracle_cube(x.astype(np.float64)[:, None], np.zeros(1, dtype=np.int64), nbins, nints, 1, np.float32(tsamp), np.float32(period), np.float32(accel), N)
+    with np.errstate(all="ignore"):
+        w1 = s1 / c1
+    got = np.asarray(fd.data)
+    ok = got.shape == w1.shape and np.array_equal(np.isnan(got), c1 == 0) and np.allclose(got[c1 > 0], w1[c1 > 0], rtol=3e-7, atol=0)
+    if not ok:
+        nd = int(np.sum(~np.isclose(got, w1, rtol=3e-7, atol=0, equal_nan=True))) if got.shape == w1.shape else -1
+        # a handful of genuinely ambiguous samples may move a cell mean by a little; a wrong phase model moves most cells
+        if a1 and 0 <= nd <= 4:
+            ctx.count("ambiguous_phase_cases")
+        else:
+            ctx.violation("long-fold-cells", f"TimeSeries.fold of {N} samples: {nd} of {w1.size} cells differ from the phase-model mean (period/tsamp={period/tsamp:.3f}, nbins={nbins}, nints={nints}, accel={accel})", one)
+            return
+    ctx.nontrivial_case(one)
+    if case["seed"] % 3 == 0:
+        ctx.sample({"kind": "long", "geom": one["geom"], "occupied_cells": int(np.count_nonzero(c1))})
+
+
 def run_case(case, ctx):
     if case["kind"] == "pulse":
         return _pulse(case, ctx)
+    if case["kind"] == "long":
+        return _long(case, ctx)
     from sigpyproc.core import kernels
     from sigpyproc.readers import FilReader
     from sigpyproc.timeseries import TimeSeries
@@ -248,6 +289,20 @@ def _pulse(case, ctx):
     except Exception as exc:  # noqa: BLE001
         ctx.violation(f"pulse-fold-raised:{type(exc).__name__}@{exc_site(exc)}", fmt_exc(exc), one)
         return
+    # the same train folded into a number of bins that puts samples exactly ON bin edges (half-integer phases in exact arithmetic)
+    for nb2 in sorted({max(2, k // 2), 2 * k, k + 1 if k % 2 else k + 2}):
+        if (N * nch) // (nbands * nints * nb2) < 10:
+            continue
+        ctx.evaluated(); ctx.count("pulse_train_edge_bins")
+        with np.errstate(all="ignore"):
+            fd2 = fil.fold(k * tsamp, 0.0, nbins=nb2, nints=nints, nbands=nbands, gulp=N, quiet=True, description="v")
+        s2, c2, a2 = oracle_cube(X.astype(np.float64), np.zeros(nch, dtype=np.int64), nb2, nints, nbands, np.float32(tsamp), np.float32(k * tsamp), np.float32(0.0), N)
+        with np.errstate(all="ignore"):
+            w2 = s2 / c2
+        g2 = np.asarray(fd2.data)
+        if not a2 and not (np.array_equal(np.isnan(g2), c2 == 0) and np.allclose(g2[c2 > 0], w2[c2 > 0], rtol=3e-7, atol=0)):
+            ctx.violation("pulse-train-edge-samples", f"pulse train with P = {k} samples folded into {nb2} bins: cube differs from the phase model (samples exactly on bin edges must go to the bin that starts there)", dict(one, nbins=nb2))
+            return
     cube = np.asarray(fd.data)
     occ = np.nan_to_num(cube) != 0
     per = occ.sum(axis=2)
